@@ -63,6 +63,7 @@ Section Proofs.
 
   Definition is_intval (v : val) : bool := match v with VInt _ => true | _ => false end.
   Definition is_bool (v : val) : bool := match v with VBool _ => true | _ => false end.
+  Definition is_long (v : val) : bool := match v with VLong _ => true | _ => false end.
   Definition nonneg (v : val) : bool := match v with VInt z => (0 <=? z)%Z | _ => false end.
 
   (* side condition of '%': integer operands, both non-negative (the property's restriction) *)
@@ -95,7 +96,7 @@ Section Proofs.
     intros op [e1 t1] [e2 t2] rp E v1 v2 pv Hl Hv He1 Ht1 He2 Ht2 Hr1 Hr2 Hmod Hbf Hpy Hrp.
     simpl in *. subst t1 t2.
     destruct Hl as [-> | [-> | [-> | [-> | [-> | ->]]]]];
-      destruct v1 as [b1|z1|x1|x1]; destruct v2 as [b2|z2|x2|x2];
+      destruct v1 as [b1|z1|x1|x1|w1]; destruct v2 as [b2|z2|x2|x2|w2];
       vm_compute in Hv; try discriminate Hv; inv Hv;
       try discriminate Hbf; simpl in Hmod;
       try match type of Hmod with _ /\ _ => destruct Hmod as [Hm1 Hm2]; try discriminate Hm1; try discriminate Hm2 end;
@@ -103,7 +104,7 @@ Section Proofs.
       try match type of Hpy with
           | (if negb (negb ?c) then _ else _) = _ => destruct c eqn:Hz; simpl in Hpy; [discriminate Hpy|]
           end;
-      inv Hpy; simpl in Hrp; simpl; rewrite He1, He2; simpl; try rewrite Hz; finish_int.
+      inv Hpy; simpl in Hrp; simpl; rewrite He1, He2; simpl; unfold Arith.cxx_arith, Arith.cxx_cmp; simpl; try rewrite Hz; finish_int.
     (* what remains: int % int on non-negative operands *)
     simpl in Hm1, Hm2, Hr1.
     rewrite quot_in_range by (try assumption; lia). rewrite rem_is_floor_mod by lia. auto.
@@ -111,7 +112,7 @@ Section Proofs.
 
   (* a value of the declared type is stored unchanged *)
   Lemma convert_same : forall (v : val), convert (type_of v) v = Some v.
-  Proof. intros [b|z|x|x]; reflexivity. Qed.
+  Proof. intros [b|z|x|x|w]; reflexivity. Qed.
 
   (* column form: the variable of the declared type holds Python's value.  Unlike the strong form it
      also covers std::pow(float, float), whose C++ type is float although it is declared double. *)
@@ -128,11 +129,11 @@ Section Proofs.
   Proof.
     intros op l r rp E v1 v2 pv Hl Hv He1 Ht1 He2 Ht2 Hr1 Hr2 Hmod Hpy Hrp.
     destruct (both_float op v1 v2) eqn:Hbf.
-    - destruct op; try discriminate Hbf. destruct v1 as [b1|z1|x1|x1]; try discriminate Hbf.
-      destruct v2 as [b2|z2|x2|x2]; try discriminate Hbf.
+    - destruct op; try discriminate Hbf. destruct v1 as [b1|z1|x1|x1|w1]; try discriminate Hbf.
+      destruct v2 as [b2|z2|x2|x2|w2]; try discriminate Hbf.
       destruct l as [e1 t1], r as [e2 t2]. simpl in *. subst t1 t2.
       vm_compute in Hv. inv Hv. simpl in Hpy. inv Hpy.
-      unfold Arith.cxx_assign. simpl. rewrite He1, He2. simpl. auto.
+      unfold Arith.cxx_assign. simpl. rewrite He1, He2. simpl. unfold Arith.cxx_arith, Arith.cxx_cmp; simpl. auto.
     - destruct (binop_strong op l r rp E v1 v2 pv Hl Hv He1 Ht1 He2 Ht2 Hr1 Hr2 Hmod Hbf Hpy Hrp) as [Hc Ht].
       split; [|exact Ht]. unfold Arith.cxx_assign. rewrite Hc, <- Ht. apply convert_same.
   Qed.
@@ -166,9 +167,9 @@ Section Proofs.
     cxx_eval E (r_expr rp) = None.
   Proof.
     intros [e1 t1] [e2 t2] rp E v1 v2 Hv He1 Ht1 He2 Ht2 Hfl. simpl in *. subst t1 t2.
-    destruct v1 as [b1|z1|x1|x1]; destruct v2 as [b2|z2|x2|x2];
+    destruct v1 as [b1|z1|x1|x1|w1]; destruct v2 as [b2|z2|x2|x2|w2];
       vm_compute in Hv; try discriminate Hv; try discriminate Hfl; inv Hv;
-      simpl; rewrite He1, He2; reflexivity.
+      simpl; rewrite He1, He2; simpl; unfold Arith.cxx_arith; simpl; reflexivity.
   Qed.
 
   (* a boolean operand of + - * / % is refused (AssertionError in most_accurate_type) *)
@@ -196,16 +197,16 @@ Section Proofs.
   Lemma unary_correct : forall (op : pyunop) (a rp : rep) (E : env) (v pv : val),
     visit_UnaryOp op a = OK rp ->
     cxx_eval E (r_expr a) = Some v -> type_of v = r_ty a -> in_range v = true ->
-    (op = Not \/ is_bool v = false) ->
+    (op = Not \/ is_bool v = false) -> is_long v = false ->
     py_unary op v = Some pv -> in_range pv = true ->
     cxx_eval E (r_expr rp) = Some pv
     /\ cxx_assign E (r_ty rp) (r_expr rp) = widen_to (r_ty rp) pv
     /\ ty_le (type_of pv) (r_ty rp) = true
     /\ (op <> Not -> type_of pv = r_ty rp).
   Proof.
-    intros op [e t] rp E v pv Hv He Ht Hr Hnb Hpy Hrp. simpl in *. subst t.
+    intros op [e t] rp E v pv Hv He Ht Hr Hnb Hnl Hpy Hrp. simpl in *. subst t.
     destruct op as [ | | |n]; try discriminate Hpy;
-      destruct v as [b|z|x|x];
+      destruct v as [b|z|x|x|w]; try discriminate Hnl;
       try (destruct Hnb as [Hn|Hn]; [discriminate Hn|discriminate Hn]);
       vm_compute in Hv; inv Hv; simpl in Hpy; inv Hpy; simpl in Hrp;
       unfold Arith.cxx_assign; simpl; rewrite He; simpl; finish_int;
@@ -227,36 +228,36 @@ Section Proofs.
     intros op [e1 t1] [e2 t2] rp E v1 v2 pv Hv He1 He2 Hpy. simpl in *.
     destruct op as [ | | | | | |n]; try discriminate Hpy;
       vm_compute in Hv; inv Hv;
-      destruct v1 as [b1|z1|x1|x1]; destruct v2 as [b2|z2|x2|x2];
+      destruct v1 as [b1|z1|x1|x1|w1]; destruct v2 as [b2|z2|x2|x2|w2];
       unfold Arith.py_compare in Hpy; simpl in Hpy; inv Hpy;
-      simpl; rewrite He1, He2; simpl; auto.
+      simpl; rewrite He1, He2; simpl; unfold Arith.cxx_arith, Arith.cxx_cmp; simpl; auto.
   Qed.
 
   (* ---------------------------------------------------------------------------------------- *)
   (* conditional                                                                               *)
   (* ---------------------------------------------------------------------------------------- *)
   Lemma assign_double : forall (E : env) (a : rep) (v : val),
-    cxx_eval E (r_expr a) = Some v -> type_of v = r_ty a ->
+    cxx_eval E (r_expr a) = Some v -> type_of v = r_ty a -> is_long v = false ->
     cxx_assign E TDouble (set_var_rhs TDouble a) = widen_to TDouble v.
   Proof.
-    intros E [e t] v He Ht. simpl in *. subst t.
-    destruct v as [b|z|x|x]; unfold set_var_rhs, Arith.cxx_assign; simpl; rewrite He; reflexivity.
+    intros E [e t] v He Ht Hnl. simpl in *. subst t.
+    destruct v as [b|z|x|x|w]; try discriminate Hnl; unfold set_var_rhs, Arith.cxx_assign; simpl; rewrite He; reflexivity.
   Qed.
 
   Lemma ifexp_correct : forall (t b o : rep) (E : env) (c x y : val),
     cxx_eval E (r_expr t) = Some c ->
-    cxx_eval E (r_expr b) = Some x -> type_of x = r_ty b ->
-    cxx_eval E (r_expr o) = Some y -> type_of y = r_ty o ->
+    cxx_eval E (r_expr b) = Some x -> type_of x = r_ty b -> is_long x = false ->
+    cxx_eval E (r_expr o) = Some y -> type_of y = r_ty o -> is_long y = false ->
     cxx_ifexp E (visit_IfExp t b o) = widen_to TDouble (py_ifexp c x y)
     /\ exists w, widen_to TDouble (py_ifexp c x y) = Some (VDbl w).
   Proof.
-    intros t b o E c x y Hc Hx Htx Hy Hty.
+    intros t b o E c x y Hc Hx Htx Hlx Hy Hty Hly.
     unfold Arith.cxx_ifexp, visit_IfExp, Arith.py_ifexp. simpl. rewrite Hc.
     destruct (truthy c).
-    - rewrite (assign_double E b x Hx Htx). split; [reflexivity|].
-      destruct x; simpl; eexists; reflexivity.
-    - rewrite (assign_double E o y Hy Hty). split; [reflexivity|].
-      destruct y; simpl; eexists; reflexivity.
+    - rewrite (assign_double E b x Hx Htx Hlx). split; [reflexivity|].
+      destruct x; try discriminate Hlx; simpl; eexists; reflexivity.
+    - rewrite (assign_double E o y Hy Hty Hly). split; [reflexivity|].
+      destruct y; try discriminate Hly; simpl; eexists; reflexivity.
   Qed.
 
   (* ---------------------------------------------------------------------------------------- *)
@@ -362,7 +363,7 @@ Section Proofs.
     | AUn op x =>
         side E x /\
         forall v, denote E x = Some v ->
-          (match op with Not => is_bool v = true | _ => is_bool v = false end) /\
+          (match op with Not => is_bool v = true | _ => is_bool v = false /\ is_long v = false end) /\
           forall w, py_unary op v = Some w -> in_range w = true
     | ACmp op l r => side E l /\ side E r
     end.
@@ -376,7 +377,10 @@ Section Proofs.
   Proof.
     intros E a. induction a as [t ty|z|b|op l IHl r IHr|op x IHx|op l IHl r IHr]; intros rp pv Ht Hd Hs.
     - simpl in *. inv Ht. destruct Hs as [v [Hv [Hty Hr]]]. simpl. rewrite Hv in Hd. inv Hd. auto.
-    - simpl in *. inv Ht. inv Hd. simpl. unfold mk_int. rewrite Hs. auto.
+    - simpl in *.
+      assert (Hnr : int_constant_refused z = false).
+      { unfold int_constant_refused, int_ok in *. lia. }
+      rewrite Hnr in Ht. inv Ht. inv Hd. simpl. rewrite Hs. auto.
     - simpl in *. inv Ht. inv Hd. simpl. auto.
     - simpl in Hs. destruct Hs as [Hsl [Hsr [Hop Hnode]]].
       simpl in Hd.
@@ -402,13 +406,16 @@ Section Proofs.
       destruct op as [ | | |n]; try discriminate Hd; simpl in Ht;
         destruct (translate x) as [x'|e] eqn:Hx'; simpl in Ht; try discriminate Ht;
         destruct (IHx x' v eq_refl eq_refl Hsx) as [Hex [Htx Hrx]].
-      + destruct (unary_correct UAdd x' rp E v pv Ht Hex Htx Hrx (or_intror Hb) Hd Hrp) as [H1 [_ [_ H4]]].
+      + destruct Hb as [Hb Hnl].
+        destruct (unary_correct UAdd x' rp E v pv Ht Hex Htx Hrx (or_intror Hb) Hnl Hd Hrp) as [H1 [_ [_ H4]]].
         split; [exact H1|]. split; [apply H4; discriminate|exact Hrp].
-      + destruct (unary_correct USub x' rp E v pv Ht Hex Htx Hrx (or_intror Hb) Hd Hrp) as [H1 [_ [_ H4]]].
+      + destruct Hb as [Hb Hnl].
+        destruct (unary_correct USub x' rp E v pv Ht Hex Htx Hrx (or_intror Hb) Hnl Hd Hrp) as [H1 [_ [_ H4]]].
         split; [exact H1|]. split; [apply H4; discriminate|exact Hrp].
-      + destruct (unary_correct Not x' rp E v pv Ht Hex Htx Hrx (or_introl eq_refl) Hd Hrp) as [H1 _].
+      + assert (Hnl : is_long v = false) by (destruct v; try discriminate Hb; reflexivity).
+        destruct (unary_correct Not x' rp E v pv Ht Hex Htx Hrx (or_introl eq_refl) Hnl Hd Hrp) as [H1 _].
         split; [exact H1|]. split; [|exact Hrp].
-        destruct v as [b|z|f|f]; try discriminate Hb. simpl in Hd. inv Hd.
+        destruct v as [b|z|f|f|w]; try discriminate Hb. simpl in Hd. inv Hd.
         vm_compute in Ht. inv Ht. simpl. simpl in Htx. exact Htx.
     - simpl in Hs. destruct Hs as [Hsl Hsr]. simpl in Hd.
       destruct (denote E l) as [x|] eqn:Hdl; [|discriminate Hd].
@@ -439,6 +446,48 @@ Section Proofs.
     intros op [e t] rp H Hv. simpl in *. subst. unfold visit_UnaryOp in Hv.
     destruct (assoc_s (pyunop_name op) known_unary_operators); [|discriminate Hv]. inv Hv. reflexivity.
   Qed.
+
+  (* ---------------------------------------------------------------------------------------- *)
+  (* wide integer literals (abs >= 2**31): written as they are - a C++ long - and declared int  *)
+  (* ---------------------------------------------------------------------------------------- *)
+  Definition wide (z : Z) : Prop := int_ok z = false /\ long_ok z = true.
+  Definition numeric (v : val) : bool := match v with VInt _ | VFlt _ | VDbl _ => true | _ => false end.
+
+  (* '/' by a wide literal is the real division: the cast makes the left operand a double *)
+  Lemma div_wide_right : forall (l rp : rep) (z : Z) (E : env) (v1 pv : val),
+    wide z ->
+    visit_BinOp Div l (visit_Constant_int z) = OK rp ->
+    cxx_eval E (r_expr l) = Some v1 -> type_of v1 = r_ty l -> numeric v1 = true ->
+    py_binop Div v1 (VInt z) = Some pv ->
+    cxx_eval E (r_expr rp) = Some pv /\ r_ty rp = TDouble /\ pv = VDbl (fdiv (at64 F of_Z v1) (of_Z z)).
+  Proof.
+    intros [e1 t1] rp z E v1 pv [Hw1 Hw2] Hv He1 Ht1 Hn Hpy. simpl in *. subst t1.
+    destruct v1 as [b1|z1|x1|x1|w1]; try discriminate Hn;
+      vm_compute in Hv; inv Hv;
+      unfold Arith.py_binop, py_is_zero, Arith.truthy in Hpy; simpl in Hpy;
+      (destruct (z =? 0)%Z eqn:Hz; simpl in Hpy; [discriminate Hpy|]); inv Hpy;
+      simpl; rewrite He1, Hw1; unfold mk_long; rewrite Hw2; simpl; auto.
+  Qed.
+
+  (* a wide literal divided by a number is the real division as well *)
+  Lemma div_wide_left : forall (r rp : rep) (z : Z) (E : env) (v2 pv : val),
+    wide z ->
+    visit_BinOp Div (visit_Constant_int z) r = OK rp ->
+    cxx_eval E (r_expr r) = Some v2 -> type_of v2 = r_ty r -> numeric v2 = true ->
+    py_binop Div (VInt z) v2 = Some pv ->
+    cxx_eval E (r_expr rp) = Some pv /\ r_ty rp = TDouble /\ pv = VDbl (fdiv (of_Z z) (at64 F of_Z v2)).
+  Proof.
+    intros [e2 t2] rp z E v2 pv [Hw1 Hw2] Hv He2 Ht2 Hn Hpy. simpl in *. subst t2.
+    destruct v2 as [b2|z2|x2|x2|w2]; try discriminate Hn;
+      vm_compute in Hv; inv Hv;
+      unfold Arith.py_binop, py_is_zero, Arith.truthy in Hpy; simpl in Hpy;
+      match type of Hpy with
+      | (if negb (negb ?c) then _ else _) = _ => destruct c eqn:Hz; simpl in Hpy; [discriminate Hpy|]
+      end; inv Hpy;
+      simpl; rewrite He2, Hw1; unfold mk_long; rewrite Hw2; simpl; auto.
+  Qed.
+
+  (* comparisons with a wide literal are exact (compare_correct covers them: no type hypothesis) *)
 End Proofs.
 
 (* ------------------------------------------------------------------------------------------ *)
@@ -514,4 +563,18 @@ Lemma conditional_int_refuted :
 Proof.
   exists (mk_rep (EBool true) TBool), (mk_rep (EInt 1) TInt), (mk_rep (EInt 2) TInt).
   repeat split; try reflexivity. simpl. intro H. discriminate H.
+Qed.
+
+(* known finding c13:wide-int-literal-declared-int (C18's declared-int-too-narrow seen from C13):
+   n + 4294967296 is declared int; the C++ value 4294967299 (a long) is stored in an int column as 3 *)
+Lemma wide_literal_refuted :
+  exists (E : env Q) (l rp : rep) (v1 pv : val Q),
+    visit_BinOp Add l (visit_Constant_int 4294967296) = OK rp /\
+    QI.eval E (r_expr l) = Some v1 /\ type_of v1 = r_ty l /\
+    QI.pybin Add v1 (VInt 4294967296) = Some pv /\ pv = VInt 4294967299 /\
+    r_ty rp = TInt /\ QI.eval E (r_expr rp) = Some (VLong 4294967299) /\
+    QI.assign E (r_ty rp) (r_expr rp) = Some (VInt 3).
+Proof.
+  exists QI.E0, (mk_rep (ELeaf "n") TInt), (mk_rep (EBin "+" (ELeaf "n") (EInt 4294967296)) TInt), (VInt 3), (VInt 4294967299).
+  repeat split; reflexivity.
 Qed.
